@@ -114,7 +114,9 @@ def render_helpers(c: Dict[str, Any], role: str, out: List[str]) -> None:
         # parameters of the factory that name call values may carry defaults; they must receive the call values all the same
         dflt = [n for n in eargs if n in c.get("edefaults", [])]
         plain = [n for n in eargs if n not in dflt]
-        return plain + ["{}=EDEFAULT".format(n) for n in dflt]
+        # ``eextra``: a defaulted parameter that names no call value at all (``lambda x, note=note: ...``) keeps its default
+        extra = ["extra_note_=EDEFAULT"] if c.get("eextra") else []
+        return plain + ["{}=EDEFAULT".format(n) for n in dflt] + extra
 
     if c.get("err") == "factory":
         eargs = c.get("eargs", [])
